@@ -982,7 +982,8 @@ class Note:
 
 
     def __hash__(self):
-        return hash(self.__repr__())
+        # Hash exactly the fields compared by __eq__ so that equal notes have equal hashes
+        return hash((self.type, self.val, self.duration, self.octave, self.mode))
 
     def __eq__(self, other):
         """
